@@ -3,6 +3,10 @@
  *
  *   case line: one op
  *      S:<signed hex>       addrxlat2kdump(s) and kdump2addrxlat(s)
+ *      X:<status>:<hex text>:<hex old|->   a message with '%' sequences crossing the library boundary:
+ *                           addrxlat2kdump (text in the translation context, old in the dump context) and
+ *                           kdump2addrxlat (the other way round); output "<a2k status> <hex kdump string>
+ *                           <xlat string left?> <k2a status> <hex xlat string> <kdump string left?>"
  *      O:<s0>,<s1>,...      open_dump()'s probe loop with the probe results scripted
  *                           (exactly ARRAY_SIZE(formats) results, hex; ffffffff = KDUMP_NOPROBE)
  *      V:<nrows>            kdump_set_attr("linux.vmcoreinfo.raw", blob of <nrows> lines)
@@ -105,6 +109,44 @@ int main(int argc, char **argv)
 			printf("%x %d ", (unsigned)k, m1);
 			pshx((long long)a);
 			printf(" %d\n", m2);
+		} else if (line[0] == 'X') {
+			/* X:<status>:<hex text>:<hex old|->: a message crossing the library boundary in both
+			 * directions.  The texts contain '%' sequences; they must arrive byte for byte. */
+			char *sv = NULL, *f1, *f2, *f3;
+			char text[256], old[256];
+			long long s;
+			kdump_status k; addrxlat_status a;
+			const char *e;
+			size_t n;
+			strtok_r(line, ":", &sv);
+			f1 = strtok_r(NULL, ":", &sv); f2 = strtok_r(NULL, ":", &sv); f3 = strtok_r(NULL, ":", &sv);
+			if (!f1 || !f2 || !f3) { printf("?\n"); kdump_free(ctx); continue; }
+			s = shx(f1);
+			for (n = 0; f2[2 * n] && f2[2 * n + 1] && n < 255; ++n) { unsigned v; sscanf(f2 + 2 * n, "%2x", &v); text[n] = (char)v; }
+			text[n] = 0;
+			n = 0;
+			if (f3[0] != '-')
+				for (; f3[2 * n] && f3[2 * n + 1] && n < 255; ++n) { unsigned v; sscanf(f3 + 2 * n, "%2x", &v); old[n] = (char)v; }
+			old[n] = 0;
+			/* up: addrxlat -> kdumpfile */
+			kdump_clear_err(ctx); addrxlat_ctx_clear_err(ctx->xlatctx);
+			if (old[0]) kdump_err(ctx, KDUMP_ERR_CORRUPT, "%s", old);
+			addrxlat_ctx_err(ctx->xlatctx, (addrxlat_status)s, "%s", text);
+			k = addrxlat2kdump(ctx, (addrxlat_status)s);
+			printf("%x ", (unsigned)k);
+			e = kdump_get_err(ctx);
+			if (!e || !*e) putchar('-'); else for (; *e; ++e) printf("%02x", (unsigned char)*e);
+			printf(" %d ", xmsgflag(ctx));
+			/* down: kdumpfile -> addrxlat */
+			kdump_clear_err(ctx); addrxlat_ctx_clear_err(ctx->xlatctx);
+			if (old[0]) addrxlat_ctx_err(ctx->xlatctx, ADDRXLAT_ERR_INVALID, "%s", old);
+			if ((kdump_status)s != KDUMP_OK) kdump_err(ctx, (kdump_status)s, "%s", text);
+			a = kdump2addrxlat(ctx, (kdump_status)s);
+			pshx((long long)a);
+			putchar(' ');
+			e = addrxlat_ctx_get_err(ctx->xlatctx);
+			if (!e || !*e) putchar('-'); else for (; *e; ++e) printf("%02x", (unsigned char)*e);
+			printf(" %d\n", msgflag(ctx));
 		} else if (line[0] == 'O') {
 			char *save = NULL, *tok;
 			kdump_status st;
